@@ -99,9 +99,12 @@ class BaseKernel:
             return ("ragged", tuple(p[0] for p in parts)), vals
         return (), [x]
 
-    def check(self, cond, label):
+    def check(self, cond, label, detail=None):
         """A structural (concrete python) condition."""
-        self.goals.append({"label": label, "kind": "struct", "ok": bool(cond)})
+        g = {"label": label, "kind": "struct", "ok": bool(cond)}
+        if detail is not None and not cond:
+            g["detail"] = str(detail)[:600]
+        self.goals.append(g)
 
     def note(self, key, value):
         self.info[key] = value
@@ -150,6 +153,8 @@ class NumKernel(BaseKernel):
 
     # ---- inputs
     def _get(self, name, sampler):
+        if name in self.draws:
+            return self.draws[name]
         if name in self.point:
             v = self.point[name]
         elif self.given:
@@ -197,6 +202,8 @@ class NumKernel(BaseKernel):
 
     def unit_quat(self, name):
         names = [name + c for c in "xyzw"]
+        if all(n in self.draws for n in names):
+            return [self.draws[n] for n in names]
         if all(n in self.point for n in names):
             q = [self.point[n] for n in names]
         else:
